@@ -105,6 +105,10 @@ def run(tier, replay=None):
     r.add_tlc(res, "dedup_model_fault_free")
     for v in res["violated"]:
         r.violation("model:" + v, "Dedup.tla invariant %s violated in the fault-free configuration (design of the round bookkeeping)" % v)
+    # the same argument for any group of reparametrisations, any number of functions and rounds (TLAPS); Dedup.tla's ASSUMEs GroupLaws and
+    # ComposeAppend (checked by TLC in the run above) are what links the concrete model to the proof's assumptions
+    common.prove(r, "DedupProofs", tier, "recording g = h^-1 . h' for a rewrite h -> h' keeps every function exact (RoundExact)", selftests=[
+        ("DedupProofs.tla", "acc' = [acc EXCEPT ![i] = Mul(acc[i], Mul(Inv(hs[i]), hn))]", "acc' = [acc EXCEPT ![i] = Mul(acc[i], Mul(hn, Inv(hs[i])))]")])
     r.cov["rule"] = ("every function line of every generated library is one event of the trace judged by Library.tla; exactness of the recorded "
                      "map is decided by P1 on function(x; p(theta)) vs unique(x; theta) with an independent composer of the file's chain; "
                      "non-trivial = lines with a non-empty map proven exact, or unrecoverable lines whose family equality was established")
